@@ -179,10 +179,13 @@ fn to_quadratic(coeff_map: &HashMap<(usize, usize), f64>) -> v1::Quadratic {
     let mut rows = Vec::with_capacity(coeff_map.len());
     let mut columns = Vec::with_capacity(coeff_map.len());
     let mut values = Vec::with_capacity(coeff_map.len());
+    // QPLIB defines the quadratic part as `1/2 x^T Q x` and lists only the lower triangle of the
+    // symmetric matrix `Q`: an off-diagonal entry stands for both `Q_ij` and `Q_ji`, hence its
+    // coefficient in the polynomial is `Q_ij`, while a diagonal entry contributes `Q_ii / 2`.
     for ((row, col), val) in coeff_map.iter() {
         rows.push(*row as u64);
         columns.push(*col as u64);
-        values.push(*val);
+        values.push(if row == col { *val / 2.0 } else { *val });
     }
     v1::Quadratic {
         rows,
